@@ -180,10 +180,20 @@ fn culprit(d: &Datum, kind: &str) -> String {
             }
             d.class()
         }
-        Datum::List(_) | Datum::Dotted(_, _) | Datum::Vector(_) => {
-            // no child fails alone: the combination does
-            let kids: Vec<String> = d.children().iter().take(4).map(|c| c.class()).collect();
-            format!("{}[{}]", d.class(), kids.join(","))
+        Datum::List(v) | Datum::Vector(v) | Datum::Dotted(v, _) => {
+            // no child fails alone: the construct does, or two neighbours do
+            let kids = d.children();
+            for w in kids.windows(2) {
+                let pair = vec![w[0].clone(), w[1].clone()];
+                let small = match d {
+                    Datum::Vector(_) => Datum::Vector(pair),
+                    _ => Datum::List(pair),
+                };
+                if kids.len() > 2 && v.len() >= 2 && fails_same(&small, kind) {
+                    return format!("{}[{},{}]", small.class(), w[0].class(), w[1].class());
+                }
+            }
+            d.class()
         }
         _ => d.class(),
     }
@@ -217,7 +227,7 @@ fn datum_outcome(ctx: &Ctx, bytes: &[u8]) -> Outcome {
             c.set(c.get() + 1);
             c.get()
         });
-        if n <= 20_000 {
+        if n <= ctx.tier.pick(20_000, 100_000) {
             ctx.nontrivial_str(&shown);
         } else {
             ctx.extra_add("nontrivial_not_hashed_beyond_cap", 1);
@@ -248,7 +258,7 @@ impl Prop for C10 {
         ]
     }
     fn run(&self, ctx: &Ctx) {
-        let cases = ctx.tier.pick(150_000u32, 4_000_000u32);
+        let cases = ctx.tier.pick(150_000u32, 5_000_000u32);
         ctx.run_bytes("datum", cases, 220, datum_outcome);
     }
     fn replay(&self, ctx: &Ctx, _kind: &str, payload: &Value) -> Outcome {
